@@ -44,6 +44,7 @@ def coq_case(line):
 
 
 def main(tier, seed, replay):
+    replay_text = open(replay).read() if replay else None   # before Result() clears build/replay
     res = L.Result(PROP, tier, seed)
     ok, cov = L.proof_stage(res, PROP, PROP_V, thorough=(tier == "thorough"))
     if ok:
@@ -62,10 +63,18 @@ def main(tier, seed, replay):
     if hexe and mexe:
         n = 100 if tier == "quick" else 700
         lines = []
-        if replay:
-            lines = [l.strip() for l in open(replay) if "|=>|" in l]
+        if replay_text is not None:
+            # self-contained monitor lines (mon_strict, mon_strict_direct) are re-evaluated against the
+            # current implementation; other lines are replayed as recorded
+            rp = os.path.join(L.BUILD, "scratch", "C11_replay_input.txt")
+            os.makedirs(os.path.dirname(rp), exist_ok=True)
+            with open(rp, "w") as f:
+                f.write(replay_text)
+            hargs = [hexe, "-seed=%d" % seed, "-replay=" + rp]
         else:
-            rc, out, dt = L.run([hexe, "-seed=%d" % seed, "-n=%d" % n], timeout=1800)
+            hargs = [hexe, "-seed=%d" % seed, "-n=%d" % n]
+        if True:
+            rc, out, dt = L.run(hargs, timeout=1800)
             st["harness_wall_s"] = round(dt, 2)
             if rc != 0:
                 p = L.write_replay(PROP, "harness_failure.txt", "correspondence harness failed (rc=%d)\n%s" % (rc, out[-6000:]))
@@ -77,7 +86,7 @@ def main(tier, seed, replay):
                     elif "|=>|" in l:
                         lines.append(l)
             corpus = os.path.join(L.VERIF, "corpus", PROP)
-            if os.path.isdir(corpus):
+            if os.path.isdir(corpus) and replay_text is None:
                 for f in sorted(os.listdir(corpus)):
                     lines.extend(l.strip() for l in open(os.path.join(corpus, f)) if "|=>|" in l)
         st["lines"] = len(lines)
